@@ -286,8 +286,8 @@ def resolve_lens(x, shape):
         return [None] + [[1, 2][i % 2] for i in range(1, k)]
     if x == "unit":
         return [1] * k
-    if x == "distinct":     # pairwise different dyadic lengths: no ties for average linkage on non-ultrametric input
-        return [None] + [1 + ((i * 37) % 64) / 64.0 + (i // 64) for i in range(1, k)]
+    if x == "distinct":     # irregular dyadic lengths: average linkage meets no tie on the trees of BIG_ALGO (asserted)
+        return [None] + [1 + ((i * i * 7 + i * 13) % 257) / 256.0 for i in range(1, k)]
     raise ValueError(x)
 
 
